@@ -456,9 +456,40 @@ func main() {
 
 	// parse call sites
 	p("Inductive bpArg := BPLit (z : Z) | BPTok (t : tokType) | BPArgTok | BPParam.\n")
-	for _, fn := range []string{"Parse", "parseExpression", "led", "nud", "parseFunctionArg", "parseMultiSelectList", "parseMultiSelectHash", "projectIfSlice", "parseFilter", "parseDotRHS", "parseProjectionRHS"} {
+	for _, fn := range []string{"Parse", "parseExpression", "led", "nud", "parseFunctionArg", "parseMultiSelectList", "parseMultiSelectHash", "projectIfSlice", "parseFilter"} {
 		for _, s := range callSites(findFunc(pars, fn)) {
 			p("Definition site_%s : bpArg := %s.\n", s.key, s.val)
+		}
+	}
+	// parseDotRHS and parseProjectionRHS hand their own binding power on at every call: one value per
+	// callee, required to be the same at all its call sites in the function (however the branches are
+	// written: if-chain or switch, tails duplicated or merged)
+	uniform := []struct {
+		fn     string
+		callee string
+		names  []string
+	}{
+		{"parseDotRHS", "parseExpression", []string{"parseDotRHS_parseExpression"}},
+		{"parseDotRHS", "continueExpression", []string{"parseDotRHS_continueExpression", "parseDotRHS_continueExpression2"}},
+		{"parseProjectionRHS", "parseExpression", []string{"parseProjectionRHS_parseExpression", "parseProjectionRHS_parseExpression2"}},
+		{"parseProjectionRHS", "parseDotRHS", []string{"parseProjectionRHS_parseDotRHS"}},
+	}
+	for _, u := range uniform {
+		val := ""
+		for _, s := range callSites(findFunc(pars, u.fn)) {
+			if !strings.HasSuffix(strings.TrimRight(s.key, "0123456789"), "_"+u.callee) {
+				continue
+			}
+			if val != "" && val != s.val {
+				die("%s: calls of %s pass different binding powers (%s, %s)", u.fn, u.callee, val, s.val)
+			}
+			val = s.val
+		}
+		if val == "" {
+			die("%s: no call of %s found", u.fn, u.callee)
+		}
+		for _, n := range u.names {
+			p("Definition site_%s : bpArg := %s.\n", n, val)
 		}
 	}
 	p("\n")
@@ -544,9 +575,29 @@ func main() {
 	p("Definition identifier_trailing_bits : list Z := [%s].\n", strings.Join(tbs, "; "))
 	// guard of the trailing-bits lookup: r < LO || r >(=) HI
 	lo, hi, hiop := "", "", ""
-	ast.Inspect(findFunc(lexer, "consumeUnquotedIdentifier"), func(n ast.Node) bool {
+	// looked for in the function that indexes identifierTrailingBits (consumeUnquotedIdentifier, or a
+	// helper extracted from it), on whatever the rune variable is called there
+	var guardFn ast.Node
+	for _, d := range lexer.Decls {
+		fd, ok := d.(*ast.FuncDecl)
+		if !ok || fd.Body == nil {
+			continue
+		}
+		ast.Inspect(fd.Body, func(n ast.Node) bool {
+			if ix, ok := n.(*ast.IndexExpr); ok {
+				if id, ok := ix.X.(*ast.Ident); ok && id.Name == "identifierTrailingBits" {
+					guardFn = fd
+				}
+			}
+			return true
+		})
+	}
+	if guardFn == nil {
+		die("no function indexes identifierTrailingBits")
+	}
+	ast.Inspect(guardFn, func(n ast.Node) bool {
 		if be, ok := n.(*ast.BinaryExpr); ok {
-			if id, ok := be.X.(*ast.Ident); ok && id.Name == "r" {
+			if _, ok := be.X.(*ast.Ident); ok {
 				if _, isLit := be.Y.(*ast.BasicLit); isLit {
 					switch be.Op {
 					case token.LSS:
